@@ -242,8 +242,9 @@ fn service_uri(rng: &mut Rng) -> ServiceUri {
         ServiceUri::Https(https(rng, ""))
     } else {
         let scheme = *rng.pick(&["http", "HTTP", "Http"]);
-        let s = format!("{}://{}/{}", scheme, rng.pick(&["h", "localhost:3000", "a&b.example"]), uri_path(rng, ""));
-        ServiceUri::from_str(&s).unwrap_or_else(|_| ServiceUri::Http("http://h/".into()))
+        let s = format!("{}://{}/{}", scheme, rng.pick(&["h", "localhost:3000", "a&b.example", "RPKI.Example.NET"]), uri_path(rng, ""));
+        // the variant is public: the value is made without going through the parser under test
+        ServiceUri::Http(s)
     }
 }
 
